@@ -602,6 +602,18 @@ func (sc *C10Scenario) concurrentPhase(out *core.Outcome, st eventbus.EventStore
 	if len(out.Violations) > 0 {
 		return
 	}
+	// every Append returned an offset of its own, whatever the interleaving
+	seenOff := map[eventbus.Offset]int{}
+	for _, o := range ops {
+		if in := o.Input.(c10In); in.Append {
+			off := o.Output.(c10Out).Off
+			if prev, dup := seenOff[off]; dup {
+				out.VS("offset-not-unique", sc.Store.Kind+":offset-unique", "[%s] two concurrent Appends (events %d and %d) were both given offset %q", sc.Store, prev, in.ID, off)
+				return
+			}
+			seenOff[off] = in.ID
+		}
+	}
 	// Reads are projected onto the events of this phase; a read resumed from a pre-phase offset sees all of them.
 	model := porcupine.Model{
 		Init: func() any { return c10State{} },
